@@ -224,6 +224,11 @@ def evaluate(ctx, text, count=True):
         out, c2, seq2, err2, ref_c, ref_err2, t2 = roundtrip(t1, c1, es5)
     except RecursionError:
         return viol, n, None
+    except Exception as e:
+        # printing a tree with comments failed outright: there is no text for the second half of the statement
+        viol.append(('C13:printer_raised:%s' % type(e).__name__, 'pretty printing the commented tree raised %s: %s' % (
+            type(e).__name__, str(e)[:200])))
+        return viol, n, None
     if count:
         ctx.hit('pretty_roundtrip')
     v = judge_roundtrip(c1, seq, out, c2, seq2, err2, ref_c, ref_err2, es5)
